@@ -23,7 +23,10 @@ def holds (nreq : Nat) (m : List (String × String)) : Bool :=
   decide (nat m "foreign" ≤ nat m "ordinary") &&
   nat m "livegot" == nat m "live" &&
   nat m "closedafter" == nat m "delivered" &&
-  nat m "pending" == 0
+  nat m "pending" == 0 &&
+  -- exact accounting: every response routed ended in exactly one place - read from a channel, left in the buffer of
+  -- a channel nobody read any more, or handed to the ordinary routes; none vanished, none was duplicated
+  nat m "delivered" + nat m "drained" + nat m "ordinary" == nat m "responses" + nat m "foreign"
 
 def step (_ : Unit) (fields : List String) (impl : String) : Unit × Reply :=
   match fields with
